@@ -141,6 +141,11 @@ impl SimFs {
         st.fault_fired
     }
 
+    /// number of `list_dir` calls seen so far
+    pub fn list_calls(&self) -> usize {
+        self.st.lock().unwrap().calls.get("list").cloned().unwrap_or(0)
+    }
+
     pub fn read_whole(&self, path: &Path) -> Option<Vec<u8>> {
         let st = self.st.lock().unwrap();
         st.files.get(path).map(|i| i.lock().unwrap().clone())
